@@ -38,7 +38,7 @@ try:
     total_pass = sum(int(x[1]) for x in res)
     ok2 = rc != 0 and failed and all('seed' in f or 'demo' in f for f in failed) and total_pass >= 41
     # patched without demo: the 41 tests
-    sh('git checkout -- . && git clean -fdq src', wt)
+    sh('git checkout -- . && git clean -fdq src tests benches examples', wt)
     sh('git apply %s/patch.diff' % src, wt, check=True)
     rc, res, failed, out = tests(wt)
     meta['patched_only'] = {'rc': rc, 'results': res, 'failed': failed}
